@@ -53,6 +53,8 @@ PROFILES = {
     "guarded": dict(cont=0.2, guard=1.0, sym=0.0, ifs=0.5, lincyc=0.1),
     "param": dict(cont=0.3, guard=0.2, sym=1.0, ifs=0.5, lincyc=0.1),
     "edge": dict(cont=0.2, guard=0.4, sym=0.1, ifs=1.0, lincyc=0.1, edge=True),
+    # programs inside the README's documented class by construction (C18); sub-classes are drawn per program
+    "inclass": dict(cont=0.4, guard=0.4, sym=0.15, ifs=0.7, lincyc=0.15, inclass=True),
 }
 
 
@@ -67,6 +69,7 @@ class Ctx:
         self.cont = False
         self.lincyc = False
         self.draw_fams = {}
+        self.atoms = []  # atoms generated so far (for verbatim repetition)
         self.banned = set()  # variables that must not be assigned here (condition variables of an enclosing nested if)
 
     def b(self, p):
@@ -236,7 +239,7 @@ def numeric_poly(c, i):
         for _ in range(c.integer(0, 2)):
             tm = lower_term(c, i, 2)
             terms.append(["mul", coeff(c), tm] if c.b(0.5) else tm)
-        if c.fin and terms and c.b(0.15):
+        if c.fin and terms and not c.k.get("inclass") and c.b(0.15):
             # finite coefficient on the self term: f*x  (linear in x for Polar)
             f = c.pick(list(c.fin))
             terms[0] = ["mul", L.var(f), terms[0]] if terms[0][0] in ("var", "mul") and x in L.expr_vars(terms[0]) else terms[0]
@@ -292,14 +295,26 @@ def numeric_rhs(c, i):
 
 
 def atom(c):
+    """a comparison over finite variables; an earlier atom of the same program is repeated verbatim in a quarter of the
+    cases (condition aliases and abstractions are keyed by the atom, so repetition after a reassignment matters)"""
+    import copy
+
+    if c.atoms and c.b(0.25):
+        return copy.deepcopy(c.pick(c.atoms))
+    a = _fresh_atom(c)
+    c.atoms.append(a)
+    return a
+
+
+def _fresh_atom(c):
     f = c.pick(list(c.fin))
     D = c.fin[f]
     r = c.integer(0, 9)
     cop = c.pick(["==", "==", "<", ">", "<=", ">="])
-    if r <= 6:
+    if r <= 5:
         ints = [x for x in D if x.denominator == 1] or [F(0)]
-        if c.b(0.03):
-            val = c.pick(D) + F("1/2")  # non-integer right-hand side: measured class (Polar refuses it, C18)
+        if c.b(0.4 if c.k.get("nonint_cond") else 0.03):
+            val = c.pick(D) if c.k.get("nonint_cond") else c.pick(D) + F("1/2")  # non-integer right-hand side: measured class (Polar refuses it, C18)
         elif c.b(0.85):
             val = c.pick(ints)
         else:
@@ -439,6 +454,24 @@ def programs(draw, profile="discrete", uninit_ok=True, min_body=1, max_body=4):
     c.lincyc = nn >= 2 and c.b(knobs["lincyc"])
     if not c.lincyc and c.b(0.35):
         c.drw = DRAW_NAMES[: c.integer(1, 2)]
+    if knobs.get("inclass"):
+        # sub-classes named by C18, drawn per program (recorded in meta["subclasses"])
+        knobs = dict(knobs)
+        c.k = knobs
+        sub = []
+        if c.b(0.15):
+            knobs["const_in_cond"] = True
+            sub.append("const_in_cond")
+        if c.b(0.15):
+            knobs["edge"] = True
+            sub.append("nested_own_condition_variable")
+        if c.b(0.15) and c.fin:
+            f0 = next(iter(c.fin))
+            c.fin[f0] = [F(x) for x in ["0", "1/2", "1"]]
+            knobs["nonint_cond"] = True
+            sub.append("non_integer_finite_values")
+        c.subclasses = sub
+        uninit_ok = False
     body = draw_var_stmts(c) + block(c, 0, c.integer(min_body, max_body))
     guard = ["true"]
     if c.fin and c.b(knobs["guard"]):
@@ -454,13 +487,22 @@ def programs(draw, profile="discrete", uninit_ok=True, min_body=1, max_body=4):
             if f not in assigned and f in c.fin:
                 body.insert(c.integer(0, len(body)), ["assign", f, finite_rhs(c, f)])
     init = init_block(c, uninit_ok)
+    # "previous value" copy: h = v placed somewhere in the body, h initialised like v (the pattern prev = pos)
+    shadow = None
+    pool = c.num + c.drw
+    if pool and c.b(0.15):
+        shadow = c.pick(pool)
+        body.insert(c.integer(0, len(body)), ["assign", "h", ["expr", L.var(shadow)]])
     # draw variables are initialised too (sometimes), so that goals at n=0 are defined
     for u in c.drw:
-        if c.b(0.8):
+        if knobs.get("inclass") or c.b(0.8):
             init.append(["assign", u, ["expr", L.num(0)]])
+    if shadow is not None:
+        iv = [st_ for st_ in init if st_[0] == "assign" and st_[1] == shadow and st_[2][0] == "expr" and st_[2][1][0] == "num"]
+        init.append(["assign", "h", ["expr", iv[0][2][1] if iv else L.num(0)]])
     prog = {"types": {}, "init": init, "guard": guard, "body": body}
     meta = {"fin": {f: [L.fs(x) for x in D] for f, D in c.fin.items()}, "num": c.num, "drw": c.drw,
-            "syms": c.syms, "lincyc": c.lincyc, "profile": profile}
+            "syms": c.syms, "lincyc": c.lincyc, "profile": profile, "subclasses": getattr(c, "subclasses", [])}
     return prog, meta
 
 
